@@ -276,6 +276,7 @@ int SZ_ReadConf(const char* sz_cfgFile) {
 			return SZ_NSCS;
 		}
 
+		int zstdMode = 3; //the level key that belongs to the selected lossless compressor governs
 		modeBuf = iniparser_getstring(ini, "PARAMETER:zstdMode", "Zstd_HIGH_SPEED");
 		if(modeBuf==NULL)
 		{
@@ -284,20 +285,22 @@ int SZ_ReadConf(const char* sz_cfgFile) {
 			return SZ_NSCS;
 		}
 		else if(strcmp(modeBuf, "Zstd_BEST_SPEED")==0)
-			confparams_cpr->gzipMode = 1;
+			zstdMode = 1;
 		else if(strcmp(modeBuf, "Zstd_HIGH_SPEED")==0)
-			confparams_cpr->gzipMode = 3;
+			zstdMode = 3;
 		else if(strcmp(modeBuf, "Zstd_HIGH_COMPRESSION")==0)
-			confparams_cpr->gzipMode = 19;
+			zstdMode = 19;
 		else if(strcmp(modeBuf, "Zstd_BEST_COMPRESSION")==0)
-			confparams_cpr->gzipMode = 22;
+			zstdMode = 22;
 		else if(strcmp(modeBuf, "Zstd_DEFAULT_COMPRESSION")==0)
-			confparams_cpr->gzipMode = 3;
+			zstdMode = 3;
 		else
 		{
 			printf("[SZ] Error: Wrong zstd Mode (please check sz.config file)\n");
 			return SZ_NSCS;
 		}
+		if(confparams_cpr->losslessCompressor==ZSTD_COMPRESSOR)
+			confparams_cpr->gzipMode = zstdMode;
 
 		modeBuf = iniparser_getstring(ini, "PARAMETER:protectValueRange", "YES");
 		if(strcmp(modeBuf, "YES")==0)
